@@ -15,7 +15,7 @@ class C15(Prop):
                   'behaviour after the first timeout is not compared.')
     design_ref = '§5 C15'
     rule = ('(period P, lifetime L) from a grid incl. sub-second values x acknowledgement pattern (always, never, stops at t, delayed/irregular gaps below and above L) over a horizon of '
-            '~8 lifetimes, in 30% of the cases with a multi-fragment upload on a slow link keeping the send queue busy across several periods; plus KEEPALIVE frames with/without respond flag and data sent to a client and to a server; non-trivial = at least 3 keepalives sent and at least one arrival '
+            '~8 lifetimes, in 30% of the cases with a multi-fragment upload on a slow link keeping the send queue busy across several periods; plus KEEPALIVE frames with/without respond flag and data sent to a client and to a server, in half of the cases while the endpoint is in the middle of a fragmented send on a slow link (one fragment released per KEEPALIVE); non-trivial = at least 3 keepalives sent and at least one arrival '
             'or a timeout; distinct = distinct (P, L, arrivals)')
     assumptions = ['integer-millisecond periods (timedelta of whole milliseconds)']
 
@@ -59,7 +59,9 @@ class C15(Prop):
             out.append(c)
         for _ in range(60 if tier == 'quick' else 1500):
             out.append({'kind': 'echo', 'role': rng.choice(['client', 'server']),
-                        'frames': [{'respond': rng.random() < 0.6, 'data': [rng.randint(1, 250) for _ in range(rng.choice([0, 1, 3]))]} for _ in range(rng.randint(1, 5))]})
+                        'frames': [{'respond': rng.random() < 0.6, 'data': [rng.randint(1, 250) for _ in range(rng.choice([0, 1, 3]))]} for _ in range(rng.randint(1, 5))],
+                        # the KEEPALIVEs arrive while the endpoint is in the middle of sending a fragmented payload on a slow link
+                        'busy': rng.choice([0, 0, 150, 400])})
         return out
 
     def run_impl(self, case):
@@ -68,10 +70,21 @@ class C15(Prop):
         return detloop.run(self._timing, case)
 
     async def _echo(self, loop, case):
-        H = engine.EngineRun(loop, case['role'])
+        busy = case.get('busy', 0)
+        H = engine.EngineRun(loop, case['role'], fragment=64 if busy else None)
         await H.start()
+        if busy:
+            await H.apply_async({'op': 'gate', 'on': True})
+            H.apply({'op': 'RR', 'data': [7] * busy})
+            await loop.settle()
         for f in case['frames']:
             H.apply({'op': 'recv', 'frame': {'ty': 'KEEPALIVE', 'sid': 0, 'respond': f['respond'], 'data': f['data']}})
+            await loop.settle()
+            if busy:
+                await H.apply_async({'op': 'release', 'n': 1})
+                await loop.settle()
+        if busy:
+            await H.apply_async({'op': 'gate', 'on': False})
             await loop.settle()
         res = await H.finish()
         return {'steps': H.steps(), 'wire': res['wire']}
